@@ -13,6 +13,15 @@ Spec: specs/RewritesCore.tla (decision procedure Outcomes / Serve), specs/Rewrit
   B        random 10-20 entry tables driven through both levels, validated by
            TraceRewrites.tla; a rejected observation is re-executed alone before
            it is reported.
+  history  the edit machine of Rewrites.tla (add / delete / update in place on one
+           table) is walked edge by edge on ONE live filter through the real HTTP
+           handlers, every query re-asked after every edit (A); random edit
+           sequences on larger tables are validated by TraceRewrites.tla (B); the
+           pipeline replay reaches same-length tables by updates in place on the
+           live server.  A disagreement is reproduced by rehearsing the history on
+           a fresh filter.
+  case     every table with a CNAME entry is also replayed with the canonical names
+           written in another letter case and the patterns in mixed case.
 """
 import json
 import os
@@ -212,7 +221,7 @@ def part_replay(ctx, res, tally):
         for name, hdr, vs in sets:
             fh.write(json.dumps(hdr) + "\n")
             for v in vs:
-                fh.write(json.dumps({"t": v["t"], "v": v["v"], "o": v["o"]}) + "\n")
+                fh.write(json.dumps({"t": v["t"], "v": v["v"], "vc": v["vc"], "o": v["o"]}) + "\n")
                 nvec += 1
     rc, out, rows = go_rows(ctx, FPKG, "^TestZZVerifC06Replay$", {"VERIF_IN": vin}, "c06_replay_out.ndjson")
     summ = [r for r in rows if r.get("kind") == "summary"]
@@ -256,7 +265,7 @@ def part_replay(ctx, res, tally):
             fh.write(json.dumps(hdr) + "\n")
             for i in sorted(pick):
                 v = vs[i]
-                fh.write(json.dumps({"t": v["t"], "v": v["v"], "o": v["o"]}) + "\n")
+                fh.write(json.dumps({"t": v["t"], "v": v["v"], "vc": v["vc"], "o": v["o"]}) + "\n")
                 npipe += 1
     rc, out, rows = go_rows(ctx, DPKG, "^TestZZVerifC06Pipeline$", {"VERIF_IN": pin}, "c06_pipe_out.ndjson")
     psum = [r for r in rows if r.get("kind") == "summary"]
@@ -276,9 +285,129 @@ def part_replay(ctx, res, tally):
                 r["query"], r["qt"], json.dumps(r["table"])))
     if psum["hangs"] and not ctx.violations:
         raise vlib.Inconclusive("pipeline replay stopped on a hang that was not reproduced")
+    if psum["flaky"] and not ctx.violations:
+        raise vlib.Inconclusive("%d wrong answers of the live server were not reproduced when the transition was "
+                                "rehearsed" % psum["flaky"])
     if psum["vectors"] != npipe and not psum["hangs"]:
         raise vlib.Inconclusive("pipeline replay consumed %d of %d vectors" % (psum["vectors"], npipe))
     res["pipe"] = psum
+
+
+def part_history(ctx, res, tally):
+    """The edit machine: TLC emits every table reachable by add/delete/update and every
+    edge; an edge-covering walk (seeded; a prefix of it in the quick tier) is performed on
+    one live filter through the HTTP handlers."""
+    g = ctx.tlc("Rewrites", "Rewrites.hist.cfg", workers=3, timeout=900, heap="3g")
+    hdr = [v for v in g["vectors"] if v.get("hdr") == 1]
+    states = [v for v in g["vectors"] if v.get("k") == "state"]
+    edges = [v for v in g["vectors"] if v.get("k") == "edge"]
+    if len(hdr) != 1 or not states or not edges:
+        raise vlib.Inconclusive("edit machine: %d headers, %d states, %d edges" % (len(hdr), len(states), len(edges)))
+    acts = {e["act"] for e in edges}
+    if acts != {"add", "del", "upd"} or all(e["ok"] for e in edges):
+        raise vlib.Inconclusive("vacuous edit machine: acts %s" % sorted(acts))
+    key = lambda t: json.dumps(t)
+    ids = {key(st["t"]): i + 1 for i, st in enumerate(states)}
+    if key([]) not in ids:
+        raise vlib.Inconclusive("the empty table is not described")
+    out_edges = {}
+    for i, e in enumerate(edges):
+        if key(e["dst"]) not in ids or key(e["src"]) not in ids:
+            raise vlib.Inconclusive("edge to an undescribed table")
+        out_edges.setdefault(key(e["src"]), []).append(i)
+    rng = random.Random(ctx.seed)
+    for lst in out_edges.values():
+        rng.shuffle(lst)
+    budget = 2500 if ctx.quick else 10 ** 9
+    covered = set()
+    ptr = dict((k, 0) for k in out_edges)
+    walk = []
+    cur = key([])
+    walk.append({"k": "reset"})
+    since = 0
+
+    def uncovered(node):
+        lst = out_edges.get(node, [])
+        while ptr[node] < len(lst) and lst[ptr[node]] in covered:
+            ptr[node] += 1
+        return lst[ptr[node]] if ptr[node] < len(lst) else None
+
+    def path_to_uncovered(node):
+        seen = {node: None}
+        queue = [node]
+        while queue:
+            nxt = []
+            for n in queue:
+                for ei in out_edges.get(n, []):
+                    d = key(edges[ei]["dst"])
+                    if d in seen:
+                        continue
+                    seen[d] = (n, ei)
+                    if uncovered(d) is not None:
+                        path = []
+                        while seen[d] is not None:
+                            n0, e0 = seen[d]
+                            path.append(e0)
+                            d = n0
+                        return path[::-1]
+                    nxt.append(d)
+            queue = nxt
+        return None
+
+    steps = 0
+    while len(covered) < len(edges) and steps < budget:
+        ei = uncovered(cur)
+        todo = [ei] if ei is not None else path_to_uncovered(cur)
+        if todo is None:
+            # Nothing reachable from here (cannot happen: every table can be emptied).
+            cur = key([])
+            walk.append({"k": "reset"})
+            since = 0
+            if uncovered(cur) is None and path_to_uncovered(cur) is None:
+                break
+            continue
+        for ei in todo:
+            e = edges[ei]
+            covered.add(ei)
+            walk.append({"k": "step", "act": e["act"], "a": e["a"], "b": e["b"], "ok": e["ok"], "dst": ids[key(e["dst"])]})
+            cur = key(e["dst"])
+            steps += 1
+            since += 1
+        if since >= 150 + rng.randrange(100):
+            # A new filter from time to time keeps the histories to rehearse short.
+            cur = key([])
+            walk.append({"k": "reset"})
+            since = 0
+    hin = ctx.path("c06_hist_in.ndjson")
+    with open(hin, "w") as fh:
+        fh.write(json.dumps(hdr[0]) + "\n")
+        for st in states:
+            fh.write(json.dumps({"k": "state", "id": ids[key(st["t"])], "t": st["t"], "v": st["v"]}) + "\n")
+        for w in walk:
+            fh.write(json.dumps(w) + "\n")
+    rc, out, rows = go_rows(ctx, FPKG, "^TestZZVerifC06History$", {"VERIF_IN": hin}, "c06_hist_out.ndjson")
+    summ = [r for r in rows if r.get("kind") == "summary"]
+    if rc != 0 or not summ:
+        raise vlib.Inconclusive("C06 history walk did not complete:\n" + out[-3000:])
+    summ = summ[0]
+    for r in rows:
+        if r.get("kind") == "setup":
+            raise vlib.Inconclusive("the rewrite API does not behave like the edit machine: %s (%s)" % (r["err"], r["step"]))
+    for r in rows:
+        if r.get("kind") in ("bad", "hang"):
+            r["lvl"] = "hist"
+            tally.report(ctx, r, "after the edits %s on one live filter CheckHost(%s, %s) = %s is not admitted by the spec %s "
+                         "for the current table %s" % (json.dumps(r["history"][-4:]), r["query"], r["qt"], json.dumps(r["got"]),
+                                                      json.dumps(r["want"]), json.dumps(r["table"])))
+    if summ["flaky"] and not ctx.violations:
+        raise vlib.Inconclusive("%d wrong answers of the live filter were not reproduced by rehearsing the history" % summ["flaky"])
+    if summ["steps"] != steps and not summ["aborted"]:
+        raise vlib.Inconclusive("history walk performed %d of %d steps" % (summ["steps"], steps))
+    if summ["aborted"] and not ctx.violations:
+        raise vlib.Inconclusive("history walk aborted without a reproduced disagreement")
+    res["hist"] = {"tables": len(states), "edges": len(edges), "edges_walked": len(covered), "steps": summ["steps"],
+                   "filters": summ["resets"], "checkhost_calls": summ["evals"], "flaky": summ["flaky"],
+                   "hangs": summ["hangs"], "exhaustive": len(covered) == len(edges)}
 
 
 def part_trace(ctx, res, tally):
@@ -289,9 +418,15 @@ def part_trace(ctx, res, tally):
     rc, out, prows = go_rows(ctx, DPKG, "^TestZZVerifC06PipeTrace$", {}, "c06_trace_p.ndjson")
     if rc != 0 or not prows:
         raise vlib.Inconclusive("C06 pipeline trace driver did not complete:\n" + out[-3000:])
-    rows = frows + prows
+    rc, out, hrows = go_rows(ctx, FPKG, "^TestZZVerifC06HistTrace$", {}, "c06_trace_h.ndjson")
+    if rc != 0 or not hrows:
+        raise vlib.Inconclusive("C06 history trace driver did not complete:\n" + out[-3000:])
+    if not {"add", "del", "upd"} <= {r["ev"] for r in hrows} or all(r.get("ok", True) for r in hrows):
+        raise vlib.Inconclusive("vacuous history trace")
+    rows = frows + prows + hrows
     tpath = ctx.path("c06_trace.ndjson")
-    vlib.write_ndjson(tpath, [{"lvl": r["lvl"], "tab": r["tab"], "qs": r["qs"]} for r in rows])
+    vlib.write_ndjson(tpath, [{k: r[k] for k in ("lvl", "ev", "a", "b", "ok", "list", "qs") if k in r} if r["lvl"] == "hist"
+                              else {"lvl": r["lvl"], "tab": r["tab"], "qs": r["qs"]} for r in rows])
     r = ctx.tlc("TraceRewrites", "TraceRewrites.cfg", workers=1, timeout=1500, heap="3g",
                 extra_files=[(tpath, "trace.ndjson")])
     if not r["vectors"]:
@@ -302,9 +437,12 @@ def part_trace(ctx, res, tally):
     nq = sum(len(x["qs"]) for x in rows)
     rejected = verdict["bad"]
     # Reproduce every rejected observation alone before reporting it.
-    probes = {"filt": [], "pipe": []}
+    probes = {"filt": [], "pipe": [], "hist": []}
     for b in rejected:
         ln = rows[b["l"] - 1]
+        if b["q"] == 0:
+            raise vlib.Inconclusive("the rewrite API does not behave like TabAdd/TabDelete/TabUpdate at trace line %d: %s, "
+                                    "succeeded=%s, listed %s" % (b["l"], ln.get("text"), ln.get("ok"), json.dumps(ln.get("list"))))
         x = ln["qs"][b["q"] - 1]
         probes[ln["lvl"]].append((b, ln, x))
     reproduced = not_reproduced = 0
@@ -312,9 +450,26 @@ def part_trace(ctx, res, tally):
         if not lst:
             continue
         pin = ctx.path("c06_probe_%s.ndjson" % lvl)
-        vlib.write_ndjson(pin, [{"tab": ln["tab"], "h": x["h"], "qt": x["qt"], "query": x["query"], "expect": b["exp"]}
-                                for b, ln, x in lst])
-        pkg, run = (FPKG, "^TestZZVerifC06Probe$") if lvl == "filt" else (DPKG, "^TestZZVerifC06PipeProbe$")
+        if lvl == "hist":
+            # Rehearse the life of the filter up to the rejected observation: the edits since the
+            # last reset, each followed by the queries that were asked after it.
+            pl = []
+            for b, ln, x in lst:
+                i = b["l"] - 1
+                first = max(j for j in range(i + 1) if rows[j]["lvl"] == "hist" and rows[j]["ev"] == "reset")
+                steps = [{"act": r["ev"], "a": r["a"], "b": r["b"], "qs": [[q["h"], q["qt"]] for q in r["qs"]]}
+                         for r in rows[first + 1:i + 1]]
+                ln["tab"] = ln["list"]
+                ln["table"] = [r.get("text") for r in rows[first + 1:i + 1]][-6:]
+                pl.append({"steps": steps, "h": x["h"], "qt": x["qt"], "query": x["query"], "expect": b["exp"]})
+            vlib.write_ndjson(pin, pl)
+            for (b, ln, x), pr_in in zip(lst, pl):
+                ln["_steps"] = pr_in["steps"]
+        else:
+            vlib.write_ndjson(pin, [{"tab": ln["tab"], "h": x["h"], "qt": x["qt"], "query": x["query"], "expect": b["exp"]}
+                                    for b, ln, x in lst])
+        pkg, run = {"filt": (FPKG, "^TestZZVerifC06Probe$"), "pipe": (DPKG, "^TestZZVerifC06PipeProbe$"),
+                    "hist": (FPKG, "^TestZZVerifC06HistProbe$")}[lvl]
         rc, out, prs = go_rows(ctx, pkg, run, {"VERIF_IN": pin}, "c06_probe_%s_out.ndjson" % lvl)
         if rc != 0 or len(prs) != len(lst):
             raise vlib.Inconclusive("C06 probe (%s) did not complete:\n%s" % (lvl, out[-3000:]))
@@ -327,12 +482,16 @@ def part_trace(ctx, res, tally):
                    "expect": b["exp"], "expected": pr.get("expected") or b["exp"], "got": pr.get("got"),
                    "hang": pr.get("hang", False),
                    "trace_observation": x}
+            if lvl == "hist":
+                rec["steps"] = ln.get("_steps")
             tally.report(ctx, rec, "trace (%s): %s %s observed %s, spec admits %s, table %s" % (
                 lvl, x["query"], x["qt"], json.dumps(pr.get("got")), json.dumps(pr.get("expected")), json.dumps(ln["table"])))
     if not_reproduced:
         raise vlib.Inconclusive("%d rejected trace observations were not reproduced alone" % not_reproduced)
     res["trace"] = {"lines": len(rows), "queries": nq, "rejected": len(rejected), "reproduced": reproduced,
-                    "filt_lines": len(frows), "pipe_lines": len(prows),
+                    "filt_lines": len(frows), "pipe_lines": len(prows), "hist_lines": len(hrows),
+                    "hist_edits": sum(1 for r in hrows if r["ev"] != "reset"),
+                    "mixed_case_answers": sum(1 for r in frows + prows for e in r["tab"] if e.get("mc")),
                     "sample": {"table": rows[0]["table"], "first_queries": rows[0]["qs"][:3]}}
 
 
@@ -345,7 +504,8 @@ def run(ctx):
         part_generate(ctx, res)
         part_replay(ctx, res, tally)
 
-    run_parallel([strand_a, lambda: part_live(ctx, res), lambda: part_trace(ctx, res, tally)])
+    run_parallel([strand_a, lambda: part_live(ctx, res), lambda: part_history(ctx, res, tally),
+                  lambda: part_trace(ctx, res, tally)])
 
     # Vacuity of the pipeline sample (only meaningful when nothing is reported:
     # a disagreement can be the very reason a class was not observed).
@@ -359,15 +519,15 @@ def run(ctx):
     nvec = sum(len(vs) for _, _, vs in sets)
     nontrivial = sum(len(v["v"]) for _, _, vs in sets for v in vs)
     multi = sum(1 for _, _, vs in sets for v in vs for q in v["v"] if len(q[2]) > 1)
-    rp, pp, tr = res["replay"], res["pipe"], res["trace"]
+    rp, pp, tr, hi = res["replay"], res["pipe"], res["trace"], res["hist"]
     samples = []
     for name, hdr, vs in sets:
         samples.append(decode_sample(hdr, vs[len(vs) // 3]))
         samples.append(decode_sample(hdr, vs[-1]))
     samples.append({"trace_line": tr.pop("sample")})
     cov = {
-        "traces_validated_against_impl": rp["orderings"] + pp["orderings"] + tr["lines"],
-        "evaluations": rp["evals"] + pp["evals"] + tr["queries"],
+        "traces_validated_against_impl": rp["orderings"] + pp["orderings"] + tr["lines"] + hi["filters"],
+        "evaluations": rp["evals"] + pp["evals"] + tr["queries"] + hi["checkhost_calls"],
         "distinct_nontrivial": nontrivial,
         "rule": "one vector per enumerated table with the admissible outcomes of every query (name x {A, AAAA, TXT}); "
                 "non-trivial = (table, query) whose name is matched by the table (the others must pass through and are "
@@ -378,7 +538,9 @@ def run(ctx):
         "pipeline_classes": pp["classes"], "verdicts_with_several_admissible_outcomes": multi,
         "trace_lines": tr["lines"], "trace_queries": tr["queries"], "trace_rejected": tr["rejected"],
         "trace_rejected_reproduced": tr["reproduced"],
-        "flaky": rp["flaky"] + pp["flaky"], "hangs": rp["hangs"] + pp["hangs"],
+        "flaky": rp["flaky"] + pp["flaky"] + hi["flaky"], "hangs": rp["hangs"] + pp["hangs"] + hi["hangs"],
+        "history_walk": hi, "pipeline_tables_reached_by_update": pp.get("tables_reached_by_update"),
+        "trace_detail": {k: tr[k] for k in ("filt_lines", "pipe_lines", "hist_lines", "hist_edits", "mixed_case_answers")},
         "known_finding_disagreements": tally.known, "truncated_by_known_finding": 0,
         "clauses_witnessed": res["clauses_witnessed"], "termination": res["live"],
         "universes": [name for name, _, _ in sets],
@@ -392,7 +554,12 @@ def run(ctx):
         "upstream's)",
         "the specification is independent of the order of the table (TLC: PermutationInvariant) so one verdict table "
         "stands for every ordering replayed",
-        "table entries are concretised in lower case; only the request side varies case",
+        "patterns are written in seeded mixed case (the code normalises them); canonical names are written in lower "
+        "case and, in a second pass over every table with a CNAME entry and in a quarter of the trace entries, with "
+        "every label in another case, where both the folded and the verbatim reading are admitted (SILENT (case)); "
+        "keywords and addresses keep their spelling",
+        "the outcome of a query depends on the current table only: edit histories are walked on one live filter and "
+        "every disagreement is reproduced by rehearsing the history on a fresh one",
         "where the statement is silent (ties, meaning of 'kind', outcome of cycles, exception reached through a CNAME) "
         "the specification admits several outcomes: see the SILENT marks in RewritesCore.tla",
     ])
@@ -401,10 +568,14 @@ def run(ctx):
 def replay(ctx, path):
     rec = json.load(open(path))["record"]
     lvl = rec.get("lvl", "filt")
+    if lvl == "hist":
+        return replay_hist(ctx, rec)
     tab = rec["tab"]
     if "order" in rec:
         tab = [tab[i] for i in rec["order"]]
     probe = {"tab": tab, "h": rec["h"], "qt": rec["qt"], "query": rec.get("query", "")}
+    if rec.get("prev_table") is not None:
+        probe["prev_table"], probe["qs"] = rec["prev_table"], rec.get("qs", [])
     if "want" in rec:
         probe["want"] = rec["want"]
     else:
@@ -417,6 +588,24 @@ def replay(ctx, path):
         raise vlib.Inconclusive("C06 probe did not complete:\n" + out[-3000:])
     pr = prs[0]
     print(json.dumps({"table": rec.get("table"), "query": [rec.get("query"), rec["qt"]],
+                      "expected": pr.get("expected"), "observed": pr.get("got"),
+                      "admissible": pr.get("admissible")}, indent=1))
+    return 0 if pr.get("admissible") else 1
+
+
+def replay_hist(ctx, rec):
+    probe = {"steps": rec["steps"], "qs": rec.get("qs", []), "h": rec["h"], "qt": rec["qt"], "query": rec.get("query", "")}
+    if "want" in rec:
+        probe["want"] = rec["want"]
+    else:
+        probe["expect"] = rec["expect"]
+    pin = ctx.path("c06_replay_in.ndjson")
+    vlib.write_ndjson(pin, [probe])
+    rc, out, prs = go_rows(ctx, FPKG, "^TestZZVerifC06HistProbe$", {"VERIF_IN": pin}, "c06_replay_out.ndjson")
+    if rc != 0 or len(prs) != 1:
+        raise vlib.Inconclusive("C06 history probe did not complete:\n" + out[-3000:])
+    pr = prs[0]
+    print(json.dumps({"history": rec.get("history") or rec.get("table"), "query": [rec.get("query"), rec["qt"]],
                       "expected": pr.get("expected"), "observed": pr.get("got"),
                       "admissible": pr.get("admissible")}, indent=1))
     return 0 if pr.get("admissible") else 1
